@@ -183,6 +183,12 @@ public:
     return P.empty() ? N : P + "::" + N;
   }
 
+  std::string classQN(const CXXRecordDecl *RD) {
+    if (RD->isDependentContext() || RD->isLambda() || !RD->getIdentifier())
+      return RD->getQualifiedNameAsString();
+    return Ctx.getTypeDeclType(RD).getCanonicalType().getAsString(PP);
+  }
+
   std::string macroStack(SourceLocation L) {
     // outermost > ... > innermost macro names the location is expanded from
     std::vector<std::string> Names;
@@ -894,7 +900,7 @@ public:
       J.attribute("noreturn", true);
     if (const auto *MD = dyn_cast<CXXMethodDecl>(FD)) {
       const CXXRecordDecl *RD = MD->getParent();
-      J.attribute("cls", RD->getQualifiedNameAsString());
+      J.attribute("cls", classQN(RD));
       if (const auto *Spec = dyn_cast<ClassTemplateSpecializationDecl>(RD)) {
         std::string A;
         llvm::raw_string_ostream OS(A);
@@ -1046,7 +1052,7 @@ public:
       return;
     J.object([&] {
       J.attribute("kind", "class");
-      J.attribute("qn", RD->getQualifiedNameAsString());
+      J.attribute("qn", classQN(RD));
       J.attribute("pk", erasedName(RD));
       if (const auto *Spec = dyn_cast<ClassTemplateSpecializationDecl>(RD)) {
         std::string A;
